@@ -153,7 +153,7 @@ def run(ctx):
                               {"kind": "tie-broken", "correspondence": "pred-sm", "case": case, "impl_trace": exp, "model_trace": got}, nofail=True)
 
     # ---- (2) whole-engine correspondence against the exact reference matrix
-    n = 6000 if quick else 400000
+    n = 16000 if quick else 600000
     r = verif.run_stream(exe, "relate-grid", ctx.seed, n, ctx.work, shards=8, driver_exe=DRV, timeout=6000)
     corr["relate-grid"] = {"cases": r["cases"], "disagreements": len(r["disagreements"]) + r.get("more_disagreements", 0),
                            "distribution": {k: v for k, v in r["stats"].items() if not k.startswith("matrix_")},
